@@ -6,6 +6,7 @@
 import Atomman.C16
 import Proofs.C16_String
 import Proofs.C16_Object
+import Proofs.C16_Memory
 import Mathlib.Tactic.Ring
 import Mathlib.Tactic.Linarith
 import Mathlib.Tactic.LinearCombination
